@@ -52,7 +52,11 @@
     `response_from_xml` both raise or both return the same object up to the representation of `set` fields —
     the bundle list position by position when ids are pairwise distinct (`SameRequest`) —, and
     `validate_request` / `validate_response` / `load_ksr` / `load_skr` accept both or neither
-    (`C12_sibling_order_verdict`, `C12_sibling_order_load_ksr`, `C12_sibling_order_load_skr`).
+    (`C12_sibling_order_verdict`, `C12_sibling_order_load_ksr`, `C12_sibling_order_load_skr`).  When only
+    differently named siblings change places the loaders return the SAME object or the same error
+    (`C12_child_order_distinct_names`).  Not invariant, with witnesses: the exception CLASS when several
+    siblings are faulty (`sibling_order_error_class_witness`), the model's list order of a `set`
+    (`sibling_order_set_witness`).
   * `C12_reader_prolog` — "anything preceding the KSR element is ignored" for a GRAMMAR of prologs (XML
     declaration, processing instructions, comments, DOCTYPE, white space — none containing the four
     characters `<KSR`); `ksr_in_comment_counterexample`: a comment that does contain `<KSR` is not ignored.
@@ -64,6 +68,7 @@ import KskmProofs.Lemmas.XmlReaderW
 import KskmProofs.Lemmas.XmlGlueEq
 import KskmProofs.Lemmas.XmlProlog
 import KskmProofs.Lemmas.XmlValidateSame
+import KskmProofs.Lemmas.XmlChildPermExample
 namespace Kskm.C12
 open Kskm.Xml
 
@@ -941,5 +946,325 @@ example : ∃ r r', parseKsr pyClasses pySwitches (renderProlog examplePrologIte
 
 /-- the two dicts differ as lists (document order of the attributes) — `DictEq` is not `=` -/
 example : dictOf (eraseT exampleW) ≠ dictOf exampleTree := by decide +kernel
+
+/-! ## 8. Sibling order below the bundle level
+
+"The result, and the verdict of validation, do not depend on the document order of bundles, keys, signatures
+or child elements."  Sections 3 and 6 cover bundles (as a list handed to the glue) and attributes.  Here: ANY
+permutation of the child elements of ANY elements of the document (`ChildPermT`,
+KskmProofs/Lemmas/XmlChildPerm.lean) — `Key`, `Signature`, `Signer` siblings of a bundle, the
+`SignatureAlgorithm` siblings of a policy, the bundles themselves, and children with distinct names
+(`Inception` before or after `Expiration`, `RequestPolicy` before or after the `RequestBundle`s, …).
+
+  1. reader: `_store_element` keeps same-named siblings as a list IN DOCUMENT ORDER, so the two dicts are not
+     `==`; they are `DictPerm`: equal up to the order of the entries of those lists (`C12_child_order_reader`);
+  2. glue: every such list ends in a Python `set` or in the sorted bundle list.  Both loaders raise or both
+     return; the objects are the same up to the list representation of the `set` fields
+     (`RequestSame` / `ResponseSame`, KskmProofs/Lemmas/XmlGlueSame.lean); with the sort by
+     (expiration, inception, id) and pairwise distinct bundle ids — the hypothesis of `C12_order_key` — the
+     bundle LISTS agree position by position (`SameRequest` / `SameResponsePerm`).  WHICH exception is raised
+     when several siblings are faulty is the first one's in document order — only "both raise" is invariant
+     (`sibling_order_error_class_witness`);
+  3. verdict: `validate_request` accepts both or neither (rule by rule from C05 / C06 / C07,
+     KskmProofs/Lemmas/XmlValidateSame.lean), likewise `validate_response`; hence `load_ksr` / `load_skr` return
+     an object for both files or for neither.  An accepted KSR has pairwise distinct bundle ids, so no such
+     hypothesis is left in `C12_sibling_order_load_ksr`. -/
+
+/-- outcomes of a loader on two documents: both return, with `R`-related objects, or both raise; "still
+    running" is not among the outcomes on plain documents -/
+def LoadSame {α : Type} (R : α → α → Prop) : Load α → Load α → Prop
+  | .done x, .done y => ResSame R x y
+  | _, _ => False
+
+/-- **Child order, at the reader.**  Two plain documents that differ in the ORDER of the child elements of
+    their elements (and in any insignificant white space: `ChildPermT` compares the standard readings): the
+    reader returns two dicts that are equal up to the order of the entries of the lists in which it collects
+    same-named siblings (`DictPerm`). -/
+theorem C12_child_order_reader (cls : Classes) (hs : Sane cls) (sw : Switches) (w w' : WTree)
+    (hp : PlainW cls w) (hp' : PlainW cls w') (hh : heightW w ≤ 5) (hh' : heightW w' ≤ 5)
+    (hperm : ChildPermT (eraseT w) (eraseT w'))
+    (lead trail lead' trail' : List Char) (hl : Ws cls lead) (ht : Ws cls trail) (hl' : Ws cls lead')
+    (ht' : Ws cls trail') :
+    ∃ r r', parse cls sw (lead ++ renderW w ++ trail) = .ok r ∧ parse cls sw (lead' ++ renderW w' ++ trail') = .ok r' ∧
+      DictPerm (.dict r) (.dict r') :=
+  ⟨_, _, C12_reader_layout cls hs sw w hp hh lead trail hl ht, C12_reader_layout cls hs sw w' hp' hh' lead' trail' hl' ht',
+    dictOf_childPerm _ _ hperm⟩
+
+/-- a loader built from `parse_ksr` and a glue function that maps `DictPerm` dicts to `R`-related outcomes -/
+theorem fromXmlWith_same {α} (cls : Classes) (sw : Switches) (glue : XVal → Res α) (R : α → α → Prop)
+    (hglue : ∀ a b, DictPerm a b → ResSame R (glue a) (glue b)) (x x' : List Char) (r r' : Dict)
+    (h : parseKsr cls sw x = .ok r) (h' : parseKsr cls sw x' = .ok r') (he : DictPerm (.dict r) (.dict r')) :
+    LoadSame R (fromXmlWith cls sw glue x) (fromXmlWith cls sw glue x') := by
+  unfold fromXmlWith
+  rw [h, h']
+  exact hglue _ _ he
+
+/-- **C12_sibling_order.**  Two plain KSR/SKR documents, each behind a prolog of the grammar, that differ in the
+    order of the child elements of any of their elements (and in layout): `request_from_xml` raises on both or
+    returns on both — `Request`s that are the same up to the representation of the `set` fields (keys,
+    signatures, signers, algorithms: permutations of the same duplicate-free lists), with the same bundles,
+    position by position when the sort is by (expiration, inception, id) and the ids are pairwise distinct
+    (`RequestSame`, `BundlesSame`) —, and so does `response_from_xml`; for either value of every behaviour
+    switch. -/
+theorem C12_sibling_order (cls : Classes) (hs : Sane cls) (sw : Switches) (gs : GlueSwitches) (w w' : WTree)
+    (hn : w.name = "KSR".toList) (hn' : w'.name = "KSR".toList)
+    (hp : PlainW cls w) (hp' : PlainW cls w') (hh : heightW w ≤ 5) (hh' : heightW w' ≤ 5)
+    (hperm : ChildPermT (eraseT w) (eraseT w'))
+    (items items' : List PrologItem) (hi : ∀ it ∈ items, it.Ok) (hi' : ∀ it ∈ items', it.Ok)
+    (trail trail' : List Char) (ht : Ws cls trail) (ht' : Ws cls trail') :
+    LoadSame (RequestSame gs.sortsRequestBundlesByTriple)
+      (requestFromXmlL cls sw gs (renderProlog items ++ renderW w ++ trail))
+      (requestFromXmlL cls sw gs (renderProlog items' ++ renderW w' ++ trail')) ∧
+    LoadSame (ResponseSame gs.sortsResponseBundles)
+      (responseFromXmlL cls sw gs (renderProlog items ++ renderW w ++ trail))
+      (responseFromXmlL cls sw gs (renderProlog items' ++ renderW w' ++ trail')) := by
+  have h1 := C12_reader_prolog cls hs sw items hi w hn hp hh trail ht
+  have h2 := C12_reader_prolog cls hs sw items' hi' w' hn' hp' hh' trail' ht'
+  have he := dictOf_childPerm _ _ hperm
+  exact ⟨fromXmlWith_same cls sw _ _ (fun _ _ => requestFromDict_same gs) _ _ _ _ h1 h2 he,
+    fromXmlWith_same cls sw _ _ (fun _ _ => responseFromDict_same gs) _ _ _ _ h1 h2 he⟩
+
+/-- **… in the property's words, for requests.**  If the first document loads, to `r`, the permuted document
+    loads too, to some `r'` with the same header, a declared policy with the same SET of algorithms and the
+    same bundles up to the `set` fields; under the sort by (expiration, inception, id) and pairwise distinct
+    bundle ids `r'` is `r` bundle by bundle: `SameRequest r r'` — Python's `r == r'`. -/
+theorem C12_sibling_order_request (cls : Classes) (hs : Sane cls) (sw : Switches) (gs : GlueSwitches) (w w' : WTree)
+    (hn : w.name = "KSR".toList) (hn' : w'.name = "KSR".toList)
+    (hp : PlainW cls w) (hp' : PlainW cls w') (hh : heightW w ≤ 5) (hh' : heightW w' ≤ 5)
+    (hperm : ChildPermT (eraseT w) (eraseT w'))
+    (items items' : List PrologItem) (hi : ∀ it ∈ items, it.Ok) (hi' : ∀ it ∈ items', it.Ok)
+    (trail trail' : List Char) (ht : Ws cls trail) (ht' : Ws cls trail') (r : Request)
+    (hr : requestFromXmlL cls sw gs (renderProlog items ++ renderW w ++ trail) = .done (.ok r)) :
+    ∃ r', requestFromXmlL cls sw gs (renderProlog items' ++ renderW w' ++ trail') = .done (.ok r') ∧
+      RequestSame gs.sortsRequestBundlesByTriple r r' ∧ C06.DeclaredWellFormed r ∧
+      (gs.sortsRequestBundlesByTriple = true →
+        (r.bundles.Pairwise (fun a b => a.id ≠ b.id) ∨ r'.bundles.Pairwise (fun a b => a.id ≠ b.id)) →
+        SameRequest r r') := by
+  have h := (C12_sibling_order cls hs sw gs w w' hn hn' hp hp' hh hh' hperm items items' hi hi' trail trail' ht ht').1
+  have hwf : C06.DeclaredWellFormed r := by
+    have h1 := C12_reader_prolog cls hs sw items hi w hn hp hh trail ht
+    unfold requestFromXmlL fromXmlWith at hr
+    rw [h1] at hr
+    simp only [Load.done.injEq] at hr
+    exact requestFromDict_wellFormed gs _ r hr
+  rw [hr] at h
+  cases hx : requestFromXmlL cls sw gs (renderProlog items' ++ renderW w' ++ trail') with
+  | hang => rw [hx] at h; exact h.elim
+  | done y =>
+    rw [hx] at h
+    cases y with
+    | error e => exact (h : False).elim
+    | ok r' =>
+      refine ⟨r', rfl, h, hwf, fun hgs hd => ?_⟩
+      have h' : RequestSame true r r' := hgs ▸ h
+      exact h'.same hd
+
+/-- **The verdict of validation does not depend on the order of child elements** (requests; the sort by
+    (expiration, inception, id) of the repaired glue).  If both documents load, `validate_request` accepts both
+    or neither — for every verifier, clock value and policy — and an accepted pair is `SameRequest`.  No
+    hypothesis on the bundle ids is left: a request with a repeated id is refused in either order. -/
+theorem C12_sibling_order_verdict (cls : Classes) (hs : Sane cls) (sw : Switches) (gs : GlueSwitches)
+    (hgs : gs.sortsRequestBundlesByTriple = true) (w w' : WTree)
+    (hn : w.name = "KSR".toList) (hn' : w'.name = "KSR".toList)
+    (hp : PlainW cls w) (hp' : PlainW cls w') (hh : heightW w ≤ 5) (hh' : heightW w' ≤ 5)
+    (hperm : ChildPermT (eraseT w) (eraseT w'))
+    (items items' : List PrologItem) (hi : ∀ it ∈ items, it.Ok) (hi' : ∀ it ∈ items', it.Ok)
+    (trail trail' : List Char) (ht : Ws cls trail) (ht' : Ws cls trail') (r r' : Request)
+    (hr : requestFromXmlL cls sw gs (renderProlog items ++ renderW w ++ trail) = .done (.ok r))
+    (hr' : requestFromXmlL cls sw gs (renderProlog items' ++ renderW w' ++ trail') = .done (.ok r'))
+    (verify : Verifier) (now : Int) (pol : RequestPolicy) :
+    (validateRequest verify now r pol = .ok () ↔ validateRequest verify now r' pol = .ok ()) ∧
+    (validateRequest verify now r pol = .ok () → SameRequest r r') := by
+  obtain ⟨r'', hr'', _, hwf, hsame⟩ := C12_sibling_order_request cls hs sw gs w w' hn hn' hp hp' hh hh' hperm
+    items items' hi hi' trail trail' ht ht' r hr
+  rw [hr'] at hr''
+  simp only [Load.done.injEq, Except.ok.injEq] at hr''
+  subst hr''
+  have hwf' : C06.DeclaredWellFormed r' := by
+    have h2 := C12_reader_prolog cls hs sw items' hi' w' hn' hp' hh' trail' ht'
+    unfold requestFromXmlL fromXmlWith at hr'
+    rw [h2] at hr'
+    simp only [Load.done.injEq] at hr'
+    exact requestFromDict_wellFormed gs _ r' hr'
+  refine ⟨⟨fun hv => ?_, fun hv => ?_⟩, fun hv => hsame hgs (Or.inl (validateRequest_ids verify now r pol hv))⟩
+  · exact (validateRequest_same verify now pol (hsame hgs (Or.inl (validateRequest_ids verify now r pol hv))) hwf).mp hv
+  · exact (validateRequest_same verify now pol (hsame hgs (Or.inr (validateRequest_ids verify now r' pol hv))) hwf).mpr hv
+
+/-- **… for responses**, with no hypothesis at all: if the first document loads, so does the permuted one — to
+    the same response up to `set` fields and bundle order (`ResponseSame`; bundle by bundle under the sort and
+    distinct ids) — and `validate_response` and the gate of `load_skr` accept both or neither. -/
+theorem C12_sibling_order_response (cls : Classes) (hs : Sane cls) (sw : Switches) (gs : GlueSwitches) (w w' : WTree)
+    (hn : w.name = "KSR".toList) (hn' : w'.name = "KSR".toList)
+    (hp : PlainW cls w) (hp' : PlainW cls w') (hh : heightW w ≤ 5) (hh' : heightW w' ≤ 5)
+    (hperm : ChildPermT (eraseT w) (eraseT w'))
+    (items items' : List PrologItem) (hi : ∀ it ∈ items, it.Ok) (hi' : ∀ it ∈ items', it.Ok)
+    (trail trail' : List Char) (ht : Ws cls trail) (ht' : Ws cls trail') (r : Response)
+    (hr : responseFromXmlL cls sw gs (renderProlog items ++ renderW w ++ trail) = .done (.ok r)) :
+    ∃ r', responseFromXmlL cls sw gs (renderProlog items' ++ renderW w' ++ trail') = .done (.ok r') ∧
+      ResponseSame gs.sortsResponseBundles r r' ∧
+      (gs.sortsResponseBundles = true →
+        (r.bundles.Pairwise (fun a b => a.id ≠ b.id) ∨ r'.bundles.Pairwise (fun a b => a.id ≠ b.id)) →
+        SameResponsePerm r r') ∧
+      ∀ (verify : Verifier) (pol : ResponsePolicy),
+        (validateResponse verify r pol = .ok () ↔ validateResponse verify r' pol = .ok ()) ∧
+        (loadSkrGate verify r pol = .ok () ↔ loadSkrGate verify r' pol = .ok ()) := by
+  have h := (C12_sibling_order cls hs sw gs w w' hn hn' hp hp' hh hh' hperm items items' hi hi' trail trail' ht ht').2
+  rw [hr] at h
+  cases hx : responseFromXmlL cls sw gs (renderProlog items' ++ renderW w' ++ trail') with
+  | hang => rw [hx] at h; exact h.elim
+  | done y =>
+    rw [hx] at h
+    cases y with
+    | error e => exact (h : False).elim
+    | ok r' =>
+      have h0 : ResponseSame gs.sortsResponseBundles r r' := h
+      refine ⟨r', rfl, h0, fun hgs hd => ?_, fun verify pol =>
+        ⟨validateResponse_same verify pol h0.bundles.1, loadSkrGate_same verify pol h0.bundles.1⟩⟩
+      have h' : ResponseSame true r r' := hgs ▸ h0
+      exact h'.same hd
+
+/-- one direction of `C12_sibling_order_load_ksr` -/
+theorem load_ksr_sibling_mp (cls : Classes) (hs : Sane cls) (sw : Switches) (gs : GlueSwitches)
+    (hgs : gs.sortsRequestBundlesByTriple = true) (w w' : WTree)
+    (hn : w.name = "KSR".toList) (hn' : w'.name = "KSR".toList)
+    (hp : PlainW cls w) (hp' : PlainW cls w') (hh : heightW w ≤ 5) (hh' : heightW w' ≤ 5)
+    (hperm : ChildPermT (eraseT w) (eraseT w'))
+    (items items' : List PrologItem) (hi : ∀ it ∈ items, it.Ok) (hi' : ∀ it ∈ items', it.Ok)
+    (trail trail' : List Char) (ht : Ws cls trail) (ht' : Ws cls trail')
+    (verify : Verifier) (now : Int) (pol : RequestPolicy) (ro : Bool) (f f' : FileOracle)
+    (hsz : f.statSize ≤ KskmGen.maxKsrSize) (hsz' : f'.statSize ≤ KskmGen.maxKsrSize)
+    (hd : f.decode (f.read KskmGen.maxKsrSize) = some (renderProlog items ++ renderW w ++ trail))
+    (hd' : f'.decode (f'.read KskmGen.maxKsrSize) = some (renderProlog items' ++ renderW w' ++ trail'))
+    (r : Request) (hl : (loadKsr cls sw gs verify now f pol ro).result = .done (.ok r)) :
+    ∃ r', (loadKsr cls sw gs verify now f' pol ro).result = .done (.ok r') ∧ SameRequest r r' := by
+  obtain ⟨hr, hv⟩ := (loadKsr_ok_iff cls sw gs verify now f pol ro hsz _ hd r).mp hl
+  obtain ⟨r', hr', _, _, _⟩ := C12_sibling_order_request cls hs sw gs w w' hn hn' hp hp' hh hh' hperm
+    items items' hi hi' trail trail' ht ht' r hr
+  obtain ⟨hiff, hsame⟩ := C12_sibling_order_verdict cls hs sw gs hgs w w' hn hn' hp hp' hh hh' hperm
+    items items' hi hi' trail trail' ht ht' r r' hr hr' verify now pol
+  exact ⟨r', (loadKsr_ok_iff cls sw gs verify now f' pol ro hsz' _ hd' r').mpr ⟨hr', hiff.mp hv⟩, hsame hv⟩
+
+/-- **`load_ksr` on two files that differ in the order of child elements** (size gate passed, the bytes decode
+    to the two documents; the repaired sort): a `Request` comes back for both files or for neither, and the
+    two are `SameRequest` — the same object for Python's `==`. -/
+theorem C12_sibling_order_load_ksr (cls : Classes) (hs : Sane cls) (sw : Switches) (gs : GlueSwitches)
+    (hgs : gs.sortsRequestBundlesByTriple = true) (w w' : WTree)
+    (hn : w.name = "KSR".toList) (hn' : w'.name = "KSR".toList)
+    (hp : PlainW cls w) (hp' : PlainW cls w') (hh : heightW w ≤ 5) (hh' : heightW w' ≤ 5)
+    (hperm : ChildPermT (eraseT w) (eraseT w'))
+    (items items' : List PrologItem) (hi : ∀ it ∈ items, it.Ok) (hi' : ∀ it ∈ items', it.Ok)
+    (trail trail' : List Char) (ht : Ws cls trail) (ht' : Ws cls trail')
+    (verify : Verifier) (now : Int) (pol : RequestPolicy) (ro : Bool) (f f' : FileOracle)
+    (hsz : f.statSize ≤ KskmGen.maxKsrSize) (hsz' : f'.statSize ≤ KskmGen.maxKsrSize)
+    (hd : f.decode (f.read KskmGen.maxKsrSize) = some (renderProlog items ++ renderW w ++ trail))
+    (hd' : f'.decode (f'.read KskmGen.maxKsrSize) = some (renderProlog items' ++ renderW w' ++ trail')) :
+    (∀ r, (loadKsr cls sw gs verify now f pol ro).result = .done (.ok r) →
+      ∃ r', (loadKsr cls sw gs verify now f' pol ro).result = .done (.ok r') ∧ SameRequest r r') ∧
+    (∀ r', (loadKsr cls sw gs verify now f' pol ro).result = .done (.ok r') →
+      ∃ r, (loadKsr cls sw gs verify now f pol ro).result = .done (.ok r) ∧ SameRequest r r') := by
+  refine ⟨fun r hl => load_ksr_sibling_mp cls hs sw gs hgs w w' hn hn' hp hp' hh hh' hperm items items' hi hi'
+    trail trail' ht ht' verify now pol ro f f' hsz hsz' hd hd' r hl, fun r' hl' => ?_⟩
+  obtain ⟨r, hl, hsame⟩ := load_ksr_sibling_mp cls hs sw gs hgs w' w hn' hn hp' hp hh' hh hperm.symm items' items hi' hi
+    trail' trail ht' ht verify now pol ro f' f hsz' hsz hd' hd r' hl'
+  exact ⟨r, hl, hsame.symm⟩
+
+/-- **`load_skr`, likewise** — for every value of the switches: a `Response` comes back for both files or for
+    neither; the same response up to `set` fields (and, without the sort or with repeated ids, bundle order). -/
+theorem C12_sibling_order_load_skr (cls : Classes) (hs : Sane cls) (sw : Switches) (gs : GlueSwitches) (w w' : WTree)
+    (hn : w.name = "KSR".toList) (hn' : w'.name = "KSR".toList)
+    (hp : PlainW cls w) (hp' : PlainW cls w') (hh : heightW w ≤ 5) (hh' : heightW w' ≤ 5)
+    (hperm : ChildPermT (eraseT w) (eraseT w'))
+    (items items' : List PrologItem) (hi : ∀ it ∈ items, it.Ok) (hi' : ∀ it ∈ items', it.Ok)
+    (trail trail' : List Char) (ht : Ws cls trail) (ht' : Ws cls trail')
+    (verify : Verifier) (pol : ResponsePolicy) (f f' : FileOracle)
+    (hsz : f.statSize ≤ KskmGen.maxSkrSize) (hsz' : f'.statSize ≤ KskmGen.maxSkrSize)
+    (hd : f.decode (f.read KskmGen.maxSkrSize) = some (renderProlog items ++ renderW w ++ trail))
+    (hd' : f'.decode (f'.read KskmGen.maxSkrSize) = some (renderProlog items' ++ renderW w' ++ trail'))
+    (r : Response) (hl : (loadSkr cls sw gs verify f pol).result = .done (.ok r)) :
+    ∃ r', (loadSkr cls sw gs verify f' pol).result = .done (.ok r') ∧ ResponseSame gs.sortsResponseBundles r r' := by
+  obtain ⟨hr, hv⟩ := (loadSkr_ok_iff cls sw gs verify f pol hsz _ hd r).mp hl
+  obtain ⟨r', hr', hsame, _, hverd⟩ := C12_sibling_order_response cls hs sw gs w w' hn hn' hp hp' hh hh' hperm
+    items items' hi hi' trail trail' ht ht' r hr
+  exact ⟨r', (loadSkr_ok_iff cls sw gs verify f' pol hsz' _ hd' r').mpr ⟨hr', (hverd verify pol).2.mp hv⟩, hsame⟩
+
+/-- **When only differently named siblings change places** (`ChildMoveT`: same-named siblings keep their
+    relative order — `Inception` after `Expiration`, `RequestPolicy` after the `RequestBundle`s, a `Signer` between
+    two `Key`s): the reader's dicts are `==` and the loaders return the SAME object, or raise the same error. -/
+theorem C12_child_order_distinct_names (cls : Classes) (hs : Sane cls) (sw : Switches) (gs : GlueSwitches) (w w' : WTree)
+    (hn : w.name = "KSR".toList) (hn' : w'.name = "KSR".toList)
+    (hp : PlainW cls w) (hp' : PlainW cls w') (hh : heightW w ≤ 5) (hh' : heightW w' ≤ 5)
+    (hmove : ChildMoveT (eraseT w) (eraseT w'))
+    (items items' : List PrologItem) (hi : ∀ it ∈ items, it.Ok) (hi' : ∀ it ∈ items', it.Ok)
+    (trail trail' : List Char) (ht : Ws cls trail) (ht' : Ws cls trail') :
+    requestFromXmlL cls sw gs (renderProlog items ++ renderW w ++ trail) =
+      requestFromXmlL cls sw gs (renderProlog items' ++ renderW w' ++ trail') ∧
+    responseFromXmlL cls sw gs (renderProlog items ++ renderW w ++ trail) =
+      responseFromXmlL cls sw gs (renderProlog items' ++ renderW w' ++ trail') := by
+  have h1 := C12_reader_prolog cls hs sw items hi w hn hp hh trail ht
+  have h2 := C12_reader_prolog cls hs sw items' hi' w' hn' hp' hh' trail' ht'
+  have he := dictOf_childMove _ _ hmove
+  exact ⟨fromXmlWith_congr cls sw _ (fun _ _ => requestFromDict_congr gs) _ _ _ _ h1 h2 he,
+    fromXmlWith_congr cls sw _ (fun _ _ => responseFromDict_congr gs) _ _ _ _ h1 h2 he⟩
+
+/-! ### what is NOT invariant, and why the statements above have the form they have -/
+
+/-- **The model's lists show the document order; the Python sets do not.**  Two `SignatureAlgorithm` siblings in
+    the two orders load to the lists `[8, 10]` and `[10, 8]`: `=` on the model's `Request` would be false where
+    Python's `==` is true — hence `SameRequest` (permutations of duplicate-free lists). -/
+theorem sibling_order_set_witness (gs : GlueSwitches) :
+    (requestFromDict gs (.dict (dictOf (eraseT SiblingExample.doc)))).map (·.zskPolicy.algorithms) =
+      .ok [SiblingExample.p8, SiblingExample.p10] ∧
+    (requestFromDict gs (.dict (dictOf (eraseT SiblingExample.docP)))).map (·.zskPolicy.algorithms) =
+      .ok [SiblingExample.p10, SiblingExample.p8] ∧
+    [SiblingExample.p8, SiblingExample.p10].Perm [SiblingExample.p10, SiblingExample.p8] ∧
+    [SiblingExample.p8, SiblingExample.p10] ≠ [SiblingExample.p10, SiblingExample.p8] := by
+  exact ⟨(SiblingExample.doc_algs gs).1, (SiblingExample.doc_algs gs).2, List.Perm.swap _ _ _, by decide⟩
+
+/-- **Which exception comes out depends on the order when several siblings are faulty**: `_keys_from_list`
+    raises at the first faulty `Key` in document order — a `KeyError` for an element without attributes, a
+    `TypeError` for a text-only element.  Both orders raise (that is what `C12_sibling_order` states); the
+    classes differ. -/
+theorem sibling_order_error_class_witness :
+    ListPerm [.dict [], .str []] [.str [], .dict []] ∧
+    keysOf (.list [.dict [], .str []]) = err .key ∧ keysOf (.list [.str [], .dict []]) = err .type :=
+  ⟨.swap _ _ _, by decide, by decide⟩
+
+/-! ### non-vacuity of section 8 -/
+
+/-- the hypotheses of `C12_sibling_order` hold of `SiblingExample.doc` / `docP` (KskmProofs/Lemmas/XmlChildPermExample.lean:
+    a request policy with six durations and two signature algorithms, five levels deep; in `docP` the children of
+    `ZSK` stand in another order, with other white space) behind `examplePrologItems` … -/
+example : SiblingExample.doc.name = "KSR".toList ∧ SiblingExample.docP.name = "KSR".toList ∧
+    PlainW pyClasses SiblingExample.doc ∧ PlainW pyClasses SiblingExample.docP ∧
+    heightW SiblingExample.doc ≤ 5 ∧ heightW SiblingExample.docP ≤ 5 ∧
+    ChildPermT (eraseT SiblingExample.doc) (eraseT SiblingExample.docP) ∧
+    (∀ it ∈ examplePrologItems, it.Ok) ∧ Ws pyClasses "\n".toList :=
+  ⟨SiblingExample.doc_names.1, SiblingExample.doc_names.2, SiblingExample.doc_plain.1, SiblingExample.docP_plain.1,
+    SiblingExample.doc_plain.2, SiblingExample.docP_plain.2, SiblingExample.doc_perm, examplePrologItems_ok,
+    by unfold Ws; decide +kernel⟩
+
+/-- … so the theorem applies: its conclusion for the two texts (the type is the instance of `C12_sibling_order`) -/
+example := C12_sibling_order pyClasses pyClasses_sane pySwitches pyGlueSwitches SiblingExample.doc SiblingExample.docP
+  SiblingExample.doc_names.1 SiblingExample.doc_names.2 SiblingExample.doc_plain.1 SiblingExample.docP_plain.1
+  SiblingExample.doc_plain.2 SiblingExample.docP_plain.2 SiblingExample.doc_perm examplePrologItems []
+  examplePrologItems_ok (by intro it h; simp at h) "\n".toList [] (by unfold Ws; decide +kernel)
+  (by intro c hc; simp at hc)
+
+/-- … and the outcome is "both return" (not "both raise"): the first document loads, behind the prolog -/
+example : ∃ r, requestFromXmlL pyClasses pySwitches pyGlueSwitches
+      (renderProlog examplePrologItems ++ renderW SiblingExample.doc ++ "\n".toList) = .done (.ok r) ∧
+    r.zskPolicy.algorithms = [SiblingExample.p8, SiblingExample.p10] := by
+  obtain ⟨r, hr, ha⟩ := SiblingExample.doc_request pyGlueSwitches
+  exact ⟨r, SiblingExample.fromXmlWith_ok (C12_reader_prolog pyClasses pyClasses_sane pySwitches examplePrologItems
+    examplePrologItems_ok SiblingExample.doc SiblingExample.doc_names.1 SiblingExample.doc_plain.1
+    SiblingExample.doc_plain.2 "\n".toList (by unfold Ws; decide +kernel)) hr, ha⟩
+
+/-- `docM` (`RetireSafety` before `PublishSafety`) meets the hypotheses of `C12_child_order_distinct_names` -/
+example : PlainW pyClasses SiblingExample.docM ∧ heightW SiblingExample.docM ≤ 5 ∧
+    ChildMoveT (eraseT SiblingExample.doc) (eraseT SiblingExample.docM) :=
+  ⟨SiblingExample.docM_plain.1, SiblingExample.docM_plain.2, SiblingExample.doc_move⟩
+
+/-- the two readings differ as values — `DictPerm` is not `=` -/
+example : dictOf (eraseT SiblingExample.docP) ≠ dictOf (eraseT SiblingExample.doc) := SiblingExample.doc_dict_ne
 
 end Kskm.C12
